@@ -243,16 +243,23 @@ open Asl.Crash in
 /-- `CrashSafe` is proved for flat skeletons: sequences, and fan-out states whose branches are sequences, without
 MaxConcurrency or with a MaxConcurrency of at least the number of branches (one batch).  What is missing for
 `∀ sk, CrashSafe sk` (on skeletons without `fail` / `opaque`):
-* Map states whose MaxConcurrency is smaller than the number of items.  The model has the batches, their re-entry events and
-  the durable record of started batches, and the `decide` examples below run them; `never_requested_twice` covers them for
-  the "not again" clause.  Not in the invariant `PInv` yet: (a) `Shape` with a launched prefix `L` of the slots (the branch
-  events are exactly those of the slots below `L`, at most one re-entry event, for `L`; `(jid, s) ∈ batches` iff `s` is a
-  batch boundary below `L`, or `L` itself with the re-entry event present); (b) the liveness half — while no re-entry event
-  is there and `L` is short of the width, some slot of the last launched batch is not filled (so the join cannot hold every
-  event: `pquiet`); (c) the measure `mu2` and the count `Cons2.phi` with the branches not yet launched accounted for; (d) the
-  three handler lemmas that are new: the end of a branch that completes a batch (`advance_hold` publishing the re-entry
-  event — today it asks for `batch_not_done`), the delivery of the re-entry event, its deferred handler (`flat_launch` for a
-  later batch).  One more thing is in the way: when a crash has wiped the join and the LAST batch is refilled before the
+* Map states whose MaxConcurrency `mc` is smaller than the number of items.  The model has the batches, their re-entry events
+  and the durable record of started batches, and the `decide` examples below run them; `never_requested_twice` covers them
+  for the "not again" clause.  What `PInv` lacks (everything else of `CrashFlat*.lean` is indifferent to `mc`):
+  (a) `Shape.cover` per batch instead of per fan-out — the batch-mates of a launched slot are launched
+      (`i / mc = f.idx / mc → slot i has its event`), slot 0 is, and for the record `batches` of attempt `J`:
+      `(J, s) ∈ batches →` the re-entry event for `s` is queued or slot `s` has its event; a slot of batch `k ≥ 1` has its
+      event only if `(J, k * mc) ∈ batches`; `batches` is closed downwards; a queued re-entry event for `s` has every
+      launched slot in an earlier batch (so its launch keeps `Shape.same`: one event per slot);
+  (b) the liveness half, about the join in memory: a batch `k` all of whose slots are filled, with `(k + 1) * mc` short of the
+      width, has `(J, (k + 1) * mc) ∈ batches` (true after a crash: nothing is filled).  With (a), `pquiet` goes by induction
+      on the batch number: every slot has its event, so a queue all of whose events are held is a complete join;
+  (c) `mu2` and `Cons2.phi` with the slots not yet launched accounted for (to the event of slot 0, from the number of
+      recorded batches, and to the re-entry event for the batch it is about to launch);
+  (d) three handler lemmas: the end of a branch that completes a batch (`advance_hold` publishing the re-entry event — today
+      it is stated under `batch_not_done`), the delivery of the re-entry event (as `flat_arm`), its deferred handler
+      (`flat_launch` for a later batch, appending to the branch events that are there).
+  One more thing is in the way: when a crash has wiped the join and the LAST batch is refilled before the
   earlier held events are redelivered, the quirk-free model publishes a re-entry event for a batch beyond the last one
   (`from_ + mc = width`; the example "a re-entry event beyond the last batch" below).  It is harmless — it launches nothing,
   or is dropped when it is delivered after the end — but it is still in the event queue when the terminal notification is
